@@ -179,6 +179,7 @@ class ScriptedRandom(_pyrandom.Random):
         self.script = []
         self.log = []
         self.unscripted = []
+        self.default_mode = "first"
 
     def reset(self, script=()):
         self.script = [tuple(s) for s in script]
@@ -196,7 +197,7 @@ class ScriptedRandom(_pyrandom.Random):
         else:
             if k > n:
                 raise ValueError("Sample larger than population or is negative")
-            choice = tuple(range(k))
+            choice = tuple(range(k)) if self.default_mode == "first" else tuple(range(n - k, n))
         self.log.append((n, k, tuple(choice)))
         return [pop[i] for i in choice]
 
